@@ -1027,6 +1027,36 @@ def enum_grid(tier):
     yield _case({"k": "ofp_packet_queue", "f": {"queue_id": 3, "properties": ps}})
     yield _case({"k": "ofp_queue_get_config_reply", "f": {"xid": 1, "port": 1, "queues": [{"queue_id": 1, "properties": ps},
                                                                                         {"queue_id": 2}]}})
+  # every residue of the 8-octet alignment for each variable-length element, alone and with neighbours behind it
+  blob = lambda n: bytes(range(1, n + 1))
+  mr = {"k": "ofp_queue_prop_min_rate", "f": {"rate": 3}}
+  for n in range(0, 18):
+    gp = {"k": "ofp_queue_prop_generic", "f": {"property": 9, "data": blob(n)}}
+    np_ = {"k": "ofp_queue_prop_none", "f": {"data": blob(n)}}
+    yield _case(gp)
+    yield _case(np_)
+    for ps in ([gp], [gp, mr], [np_, gp, mr], [mr, np_], [gp, gp, np_, mr]):
+      yield _case({"k": "ofp_packet_queue", "f": {"queue_id": n, "properties": ps}})
+    yield _case({"k": "ofp_queue_get_config_reply", "f": {"xid": 1, "port": 2, "queues": [
+        {"queue_id": 1, "properties": [gp, mr]}, {"queue_id": 2, "properties": [np_]}, {"queue_id": 3, "properties": [mr, gp, np_]}]}})
+    ga = {"k": "ofp_action_generic", "f": {"type": 0x1234, "data": blob(n)}}
+    va = {"k": "ofp_action_vendor_generic", "f": {"vendor": 7, "body": blob(n)}}
+    out1 = {"k": "ofp_action_output", "f": {"port": 1}}
+    yield _case(ga)
+    yield _case(va)
+    for acts in ([ga, out1], [va, out1], [out1, ga, va, out1]):
+      yield _case({"k": "ofp_flow_mod", "f": {"xid": 1, "actions": acts}})
+      yield _case({"k": "ofp_packet_out", "f": {"xid": 1, "actions": acts, "data": blob(n)}})
+      yield _case({"k": "ofp_stats_reply", "f": {"xid": 1, "body": [{"k": "ofp_flow_stats", "f": {"actions": acts}}] * 2}})
+    for kind, fld in (("ofp_echo_request", "body"), ("ofp_echo_reply", "body"), ("ofp_error", "data"), ("ofp_vendor_generic", "data"),
+                      ("ofp_packet_in", "data")):
+      yield _case({"k": kind, "f": {"xid": 1, fld: blob(n)}})
+    vs = {"k": "ofp_vendor_stats_generic", "f": {"vendor": 5, "data": blob(n)}}
+    yield _case(vs)
+    yield _case({"k": "ofp_stats_request", "f": {"xid": 1, "body": vs}})
+    yield _case({"k": "ofp_stats_reply", "f": {"xid": 1, "body": vs}})
+    yield _case({"k": "ofp_stats_request", "f": {"xid": 1, "type": 77, "body": blob(n)}})
+    yield _case({"k": "ofp_stats_reply", "f": {"xid": 1, "type": 77, "body": blob(n)}})
   for d, tl in ((b"", None), (b"abc", None), (b"abc", 3), (b"abc", 0xffff), (b"", 0xffff), (b"x" * 60, 1500)):
     f = {"xid": 1, "data": d}
     if tl is not None:
@@ -1310,9 +1340,9 @@ def _strategy_messages(tier):
 
 
 def _strategy_parts(tier):
-  act = _wrap(G.action())
+  act = _wrap(G.action(aligned=False))
   body_req = _wrap(G.stats_request_body(safe=False, generic=True))
-  body_rep = _wrap(st.sampled_from(G.STATS_REPLY_KINDS).flatmap(G.stats_reply_entry))
+  body_rep = _wrap(st.sampled_from(G.STATS_REPLY_KINDS).flatmap(lambda k: G.stats_reply_entry(k, aligned=False)))
   prop = _wrap(G.queue_prop(safe=False))
   queue = _wrap(G.packet_queue(safe=False).map(lambda f: {"k": "ofp_packet_queue", "f": f}))
   port = _wrap(G.phy_port().map(lambda f: {"k": "ofp_phy_port", "f": f}))
@@ -1343,11 +1373,11 @@ def _strategy_pairs(tier):
   for k in G.OF10_MESSAGE_KINDS:
     per_kind.append((k, lambda k=k: G.message("any", safe=False, kinds=[k])))
   for k in G.OF10_ACTION_KINDS:
-    per_kind.append((k, lambda k=k: G.action(kinds=[k])))
+    per_kind.append((k, lambda k=k: G.action(kinds=[k], aligned=False)))
   for k in G.STATS_REQUEST_KINDS:
     per_kind.append((k, lambda k=k: G.stats_request_body(safe=False, generic=True, kinds=[k])))
   for k in G.STATS_REPLY_KINDS:
-    per_kind.append((k, lambda k=k: G.stats_reply_entry(k)))
+    per_kind.append((k, lambda k=k: G.stats_reply_entry(k, aligned=False)))
   for k in ("ofp_queue_prop_min_rate", "ofp_queue_prop_none", "ofp_queue_prop_generic"):
     per_kind.append((k, lambda k=k: G.queue_prop(safe=False, kinds=[k])))
   per_kind.append(("ofp_packet_queue", lambda: G.packet_queue(safe=False).map(lambda f: {"k": "ofp_packet_queue", "f": f})))
@@ -1373,11 +1403,11 @@ def plan(tier):
   sh = 8 if tier == "quick" else 16        # process start-up (pox + hypothesis import) is a third of the quick tier's cost
   drivers = [
     Enum("grid", lambda: _all_enum(tier), shards=16),
-    Hyp("generated-messages", lambda: _strategy_messages(tier), examples=3200 * k, shards=sh),
+    Hyp("generated-messages", lambda: _strategy_messages(tier), examples=2800 * k, shards=sh),
     Hyp("generated-parts", lambda: _strategy_parts(tier), examples=2000 * k, shards=sh),
     Hyp("generated-match", lambda: _strategy_match(tier), examples=1000 * k, shards=sh),
   ]
   if _NICIRA:
-    drivers.append(Hyp("generated-nicira", lambda: _strategy_nx(tier), examples=2000 * k, shards=sh))
+    drivers.append(Hyp("generated-nicira", lambda: _strategy_nx(tier), examples=1700 * k, shards=sh))
   drivers.append(Hyp("generated-pairs", lambda: _strategy_pairs(tier), examples=1200 * k, shards=sh))
   return drivers
